@@ -73,7 +73,7 @@ func VP_C15_Stall() {
 	l.conns <- good
 	vp.Quiesce()
 
-	vp.Assert(vpContains(good.out, "HTTP/1.1 200 OK") && vpContains(good.out, "HTTP/1.1 101 Switching Protocols"), "well-behaved-peer-completes-handshake-while-another-peer-stalls")
+	vp.Assert(vpContains(good.out, "HTTP/1.1 200 ") && vpContains(good.out, "HTTP/1.1 101 "), "well-behaved-peer-completes-handshake-while-another-peer-stalls")
 	vp.Assert(len(vpS.sessions) == 1, "session-created-for-the-well-behaved-peer")
 	vp.Reach("served")
 }
